@@ -55,7 +55,7 @@ type mergeExpect struct {
 
 var mergeTypePool = []string{"User", "USER2", "user", "user2", "us", "group", "doc", "folder", "org", "team", "a.b", "model", "type", "e"}
 var mergeRelPool = []string{"Viewer", "VIEW", "viewer", "viewer2", "view", "editor", "owner", "member", "parent", "admin", "r", "relation", "type", "define1"}
-var mergeCondPool = []string{"c1", "C1", "c10", "c", "C", "cond2", "is_valid"}
+var mergeCondPool = []string{"c1", "C1", "c10", "c", "C", "cond2", "is_valid", "doc", "group", "e"} // (the last three are also type names: separate namespaces)
 
 func pickRewrite(r *rand.Rand, rels []string) *gen.Expr {
 	leaf := func() *gen.Expr {
